@@ -65,12 +65,8 @@ def plan(tier):
     sh += [{'kind': 'masks', 'n': per} for _ in range(2)]
     n, per = (6, 800) if tier == 'quick' else (8, 40000)
     sh += [{'kind': 'framing', 'n': per} for _ in range(n)]
-    try:
-        from vf.props import _session
-        sh += _session.plan_c19(tier)
-    except ImportError:
-        pass
-    return sh
+    from vf.props import _session
+    return sh + _session.plan_c19(tier)
 
 
 # ---- (a) ---------------------------------------------------------------------------------
@@ -290,6 +286,11 @@ def run_shard(spec, seed, tier, stats):
         return [v] if v else []
     from vf.props import _session
     return _session.run_shard_c19(spec, seed, tier, stats)
+
+
+def check_session(scenario, schedule, stats=None, **kw):
+    from vf.props import _session
+    return _session.check_server_built(scenario, schedule, stats)
 
 
 def replay(rec):
